@@ -88,18 +88,30 @@ func c16Render(c c16Case, variant int, rnd *rand.Rand) string {
 	case 3:
 		fromName, toName, cidName = "F", "T", "I"
 	}
+	// the method and the status are no part of the attribution: they walk through their lists
+	// with the case and the variant
+	pick := variant
+	for _, ch := range []byte(c.key()) {
+		pick = pick*31 + int(ch)
+		if pick < 0 {
+			pick = -pick
+		}
+	}
+	methods := []string{"BYE", "INVITE", "ACK", "INFO", "NOTIFY", "UPDATE", "MESSAGE", "SUBSCRIBE", "REFER", "PRACK"}
+	statuses := []string{"200 OK", "100 Trying", "180 Ringing", "183 Session Progress", "202 Accepted", "302 Moved Temporarily", "404 Not Found", "486 Busy Here", "503 Service Unavailable", "603 Decline", "401 Unauthorized"}
+	method := methods[pick%len(methods)]
 	var b strings.Builder
 	if variant&2 == 0 {
-		b.WriteString("BYE sip:svc@example.com SIP/2.0\r\n")
+		b.WriteString(method + " sip:svc@example.com SIP/2.0\r\n")
 	} else {
-		b.WriteString("SIP/2.0 200 OK\r\n")
+		b.WriteString("SIP/2.0 " + statuses[(pick/7)%len(statuses)] + "\r\n")
 	}
 	hs := []string{
 		"Via: SIP/2.0/UDP 192.0.2.1:5060;branch=z9hG4bKx",
 		fromName + ": " + party(from, false),
 		toName + ": " + party(to, true),
 		cidName + ": " + c.callID,
-		"CSeq: 2 BYE",
+		"CSeq: 2 " + method,
 	}
 	if rnd != nil {
 		rnd.Shuffle(len(hs), func(i, j int) { hs[i], hs[j] = hs[j], hs[i] })
@@ -119,13 +131,13 @@ type c16Monitor struct {
 
 func TestVerifC16(t *testing.T) {
 	run := ev.New("C16", "exploration",
-		"all assignments of (Call-ID, two tags, two URIs) over small alphabets (equal URIs, equal tags, '-' values included) x orientation x request/response x 6 decorations x 4 header-name spellings, plus random long identifiers; "+
+		"all assignments of (Call-ID, two tags, two URIs) over small alphabets (equal URIs, equal tags, '-' values included) x orientation x request (10 methods) / response (11 status codes incl. 100 and 1xx) x 6 decorations x 4 header-name spellings, a host written with capitals, plus random long identifiers; "+
 			"monitor: identifier <-> canonical key must be a bijection and tag-less messages must yield no identifier; distinct = distinct canonical keys")
 	// (values whose concatenations coincide - "a"+"11" / "a1"+"1", "sip:h"+"21" / "sip:h2"+"1" -
 	// are there for identifiers that lose a boundary between their parts)
 	callIDs := []string{"a", "a-b", "b", "a-b-1", "a1"}
 	tags := []string{"1", "b-1", "2", "1-2", "-", "11", "21"}
-	uris := []string{"sip:h", "sip:u@h", "sip:u@h:5060", "sip:v@h", "sip:u@g", "tel:+1", "urn:service:sos", "sip:h-2", "sip:h2"}
+	uris := []string{"sip:h", "sip:u@h", "sip:u@h:5060", "sip:v@h", "sip:u@g", "tel:+1", "urn:service:sos", "sip:h-2", "sip:h2", "sip:u@Big.Host"}
 	if ev.Thorough() {
 		callIDs = append(callIDs, "1", "a-1", "x@h", "-")
 		tags = append(tags, "a", "2-b", "a-b")
